@@ -8,6 +8,7 @@ import (
 	"fmt"
 	"go/types"
 	"os"
+	"os/exec"
 	"path/filepath"
 	"sort"
 	"strconv"
@@ -31,6 +32,7 @@ type PropCfg struct {
 	Bounded     []string   `json:"bounded,omitempty"`
 	MinObligs   int        `json:"min_obligations"`
 	Extra       []string   `json:"extra_checks,omitempty"`
+	CFB         bool       `json:"cfb,omitempty"`
 }
 
 type KnownFinding struct {
@@ -201,6 +203,11 @@ func cmdCheck(args []string) {
 	dischargeAll(units, cfg, func(o *Oblig) bool {
 		return true
 	})
+	// proof by instantiation (C08): shards run in parallel worker processes
+	var cfbRes *cfbShardResult
+	if pc.CFB {
+		cfbRes = runCFBWorkers(*repo, *tier)
+	}
 	// collect
 	type sample struct {
 		Name   string `json:"obligation"`
@@ -270,6 +277,20 @@ func cmdCheck(args []string) {
 			}
 		}
 	}
+	if cfbRes != nil {
+		total += cfbRes.Trivial + cfbRes.Solver
+		discharged += cfbRes.Trivial + cfbRes.Discharged
+		for _, m := range cfbRes.Unsup {
+			unsupported = append(unsupported, m)
+		}
+		for _, f := range cfbRes.Failed {
+			failed = append(failed, &Oblig{Name: f.Name, Kind: f.Kind, Pos: f.Pos, Result: f.Result, Solver: f.Solver, Output: f.Output, Fn: "cfb"})
+		}
+		for _, n := range cfbRes.Sample {
+			samples = append(samples, sample{n, "ensures", "crypt.go", "unsat", "simplifier", 0})
+		}
+		trusted["crypto/cipher.Block.Encrypt: uninterpreted permutation; crypto/subtle.XORBytes: byte-level semantics"] = true
+	}
 	sort.Slice(slowest, func(i, j int) bool { return slowest[i].Ms > slowest[j].Ms })
 	if len(slowest) > 5 {
 		slowest = slowest[:5]
@@ -293,7 +314,7 @@ func cmdCheck(args []string) {
 			continue
 		}
 		violations++
-		rp := writeReplay(*vdir, *prop, o, env)
+		rp := writeReplay(*vdir, *prop, o, env, *repo)
 		suffix := ""
 		if !rp.Reproduced {
 			suffix = " no-failing-input-found"
@@ -410,6 +431,7 @@ func cmdCheck(args []string) {
 				"covers":                   map[string]int{"run": covers, "reachable_or_unknown": coversSat},
 				"known_findings":           knownHit,
 				"bounded":                  pc.Bounded,
+				"instances":                cfbInstancesInfo(cfbRes, *tier),
 				"explanation":              pc.Explanation,
 				"arith":                    "arith int: mathematical Int with explicit mod 2^w wrap for 8/16/32-bit types",
 				"timeouts_ms":              map[string]int{"fast": cfg.QuickMs, "full": cfg.FullMs},
@@ -459,8 +481,18 @@ type replayInfo struct {
 	Reproduced bool
 }
 
-func writeReplay(vdir, prop string, o *Oblig, env *Env) replayInfo {
+func writeReplay(vdir, prop string, o *Oblig, env *Env, repo string) replayInfo {
 	path := filepath.Join(vdir, "replays", prop, safeName(o.Name)+".json")
+	rr := replayResult{Why: "no replay driver for this kind of obligation; the solver's output is attached"}
+	if o.Fn == "cfb" {
+		if src, ok := cfbReplayTest(o.Name); ok {
+			rr = runReplayTest(repo, src)
+		}
+	}
+	verdict := "no-failing-input-found"
+	if rr.Reproduced {
+		verdict = "reproduced on the real code"
+	}
 	rec := map[string]any{
 		"property":      prop,
 		"obligation":    o.Name,
@@ -470,10 +502,66 @@ func writeReplay(vdir, prop string, o *Oblig, env *Env) replayInfo {
 		"solver":        o.Solver,
 		"result":        o.Result,
 		"solver_output": o.Output,
-		"replay":        map[string]any{"attempted": false, "reproduced": false},
-		"verdict":       "no-failing-input-found",
+		"replay":        rr,
+		"verdict":       verdict,
 	}
 	b, _ := json.MarshalIndent(rec, "", " ")
 	os.WriteFile(path, b, 0o644)
-	return replayInfo{Path: path}
+	return replayInfo{Path: path, Reproduced: rr.Reproduced}
+}
+
+func cfbInstancesInfo(r *cfbShardResult, tier string) any {
+	if r == nil {
+		return nil
+	}
+	dom := "quick: stream/xor/none ciphers at lengths 0..64, 100, 1000, 1499, 1500 in both modes; every length 0..1500 for encrypt16/decrypt16 in place (the session's configuration); for the other combinations every length whose 8-block group count is 0, 1 or the maximum (all leftover-block counts and all tail lengths)"
+	if tier == "thorough" {
+		dom = "every length 0..1500 x {encrypt16, decrypt16, encrypt8, decrypt8, salsa20/simpleXOR/none Encrypt and Decrypt} x {in place, out of place}"
+	}
+	return map[string]any{"domain": dom, "instances": r.Cases, "obligations_closed_by_simplifier": r.Trivial, "obligations_sent_to_solvers": r.Solver}
+}
+
+// runCFBWorkers splits the instance list over worker processes (term tables are per process).
+func runCFBWorkers(repo, tier string) *cfbShardResult {
+	n := 16
+	type out struct {
+		r   *cfbShardResult
+		err string
+	}
+	ch := make(chan out, n)
+	exe, _ := os.Executable()
+	for i := 0; i < n; i++ {
+		go func(i int) {
+			cmd := exec.Command(exe, "cfbworker", "-repo", repo, "-tier", tier, "-shard", strconv.Itoa(i), "-of", strconv.Itoa(n))
+			b, err := cmd.Output()
+			if err != nil {
+				ch <- out{nil, fmt.Sprintf("worker %d: %v", i, err)}
+				return
+			}
+			var r cfbShardResult
+			if err := json.Unmarshal(b, &r); err != nil {
+				ch <- out{nil, fmt.Sprintf("worker %d: bad output", i)}
+				return
+			}
+			ch <- out{&r, ""}
+		}(i)
+	}
+	total := &cfbShardResult{}
+	for i := 0; i < n; i++ {
+		o := <-ch
+		if o.r == nil {
+			total.Unsup = append(total.Unsup, o.err)
+			continue
+		}
+		total.Cases += o.r.Cases
+		total.Trivial += o.r.Trivial
+		total.Solver += o.r.Solver
+		total.Discharged += o.r.Discharged
+		total.Failed = append(total.Failed, o.r.Failed...)
+		total.Unsup = append(total.Unsup, o.r.Unsup...)
+		if len(total.Sample) < 3 {
+			total.Sample = append(total.Sample, o.r.Sample...)
+		}
+	}
+	return total
 }
